@@ -143,6 +143,7 @@ pub fn public(args: &Args) {
                       "cancel_at": -1, "tag": st["tag"].as_str().unwrap_or(""), "api": "public", "stop_after_ms": stop_ms.map(|c| c as i64).unwrap_or(-1), "drop_receiver": drop_rx}));
         out.flush();
         let t0 = Instant::now();
+        let _ = verif::take_shallow_workers_max();
         let (handle, tx, rx) = Searcher::new().analyze(state, seed, Evaluator::default(), depth, prev);
         let mut rx = Some(rx);
         if drop_rx { rx = None; }
@@ -161,7 +162,7 @@ pub fn public(args: &Args) {
         match res {
             Ok(a) => {
                 out.ev(json!({"ev": "SearchEnd", "status": "ok", "ms": t0.elapsed().as_millis() as u64, "ms_after_cancel": after.map(|c| c as i64).unwrap_or(-1), "nodes": 0, "nodes_after_cancel": 0,
-                              "history_len": verif::history_len(&a), "entries": verif::table_entries(&a), "sched": {"grants": 0, "switches": 0, "degraded": false}}));
+                              "shallow_workers": verif::take_shallow_workers_max(), "history_len": verif::history_len(&a), "entries": verif::table_entries(&a), "sched": {"grants": 0, "switches": 0, "degraded": false}}));
                 artifact = Some(a);
             }
             Err(_) => {
